@@ -470,6 +470,8 @@ func RunC06(d *Driver) *Report {
 	if Thorough() {
 		nexpr = 6000
 	}
+	prattPostfix = true
+	defer func() { prattPostfix = false }()
 	for i := 0; i < nexpr; i++ {
 		ty := []string{"num", "bool", "str"}[rng.Intn(3)]
 		e := prattGen(rng, ty, 1+rng.Intn(6))
@@ -511,7 +513,7 @@ func RunC06(d *Driver) *Report {
 			}
 		}
 	}
-	r.Rule = fmt.Sprintf("%d accepted texts: every evy block of docs/*.md, every playground sample, hand-written programs covering every syntax form with comments in every position, multi-line array and map literals, empty programs; generated programs; expression texts with parentheses placed at random, as a declaration value and in whitespace-sensitive positions; six whitespace variants of each (trailing spaces, longer blank-line runs, other indentation, tabs, no final newline, doubled spaces) and three comment variants of each formatted text (a trailing comment on every line, comment / blank lines before every line, random runs); those token deletions / insertions / substitutions of each text, and stray words after block headers, that the parser accepts. For each: the non-whitespace token sequence of source and Program.Format output (comments included, literals by value) must be equal, the output must be accepted again, have the same serialised syntax tree, and (every %dth) run to the same platform trace and globals. Non-trivial = distinct text", nprog, nrun)
+	r.Rule = fmt.Sprintf("%d accepted texts: every evy block of docs/*.md, every playground sample, hand-written programs covering every syntax form with comments in every position, multi-line array and map literals, empty programs; generated programs; expression texts with parentheses placed at random (operators, groups, indexing, slices, field access, type assertions), as a declaration value and in whitespace-sensitive positions; six whitespace variants of each (trailing spaces, longer blank-line runs, other indentation, tabs, no final newline, doubled spaces) and three comment variants of each formatted text (a trailing comment on every line, comment / blank lines before every line, random runs); those token deletions / insertions / substitutions of each text, and stray words after block headers, that the parser accepts. For each: the non-whitespace token sequence of source and Program.Format output (comments included, literals by value) must be equal, the output must be accepted again, have the same serialised syntax tree, and (every %dth) run to the same platform trace and globals. Non-trivial = distinct text", nprog, nrun)
 	r.DriverCalls = 0
 	return r
 }
